@@ -1018,3 +1018,140 @@ Proof. split; reflexivity. Qed.
 Lemma after_cancel_before_eval_refuted :
   y_session true h_dead = [OOk; OZero; OZero; OOk] /\ g_session h_dead = [OOk; OOk; OOk; OOk].
 Proof. split; reflexivity. Qed.
+
+(* ------------------------------------------------------------------ *)
+(** * Argument expression shapes *)
+
+Lemma strip_all_inner k r : strip_all k r = r.
+Proof. induction k; simpl; auto. Qed.
+
+Lemma a_unbox_box k : a_unbox (ABox k) = ARaw.
+Proof. unfold a_unbox. apply strip_all_inner. Qed.
+
+Definition is_box (r : arep) : bool := match r with ABox _ => true | _ => false end.
+Definition raw_or_box (r : arep) : bool := match r with ARaw | ABox _ => true | _ => false end.
+
+(** forwarding through script functions, from the second function on *)
+Lemma forward_iface hm d r c ic :
+  raw_or_box r = true -> exists k c' ic', d <> 0 -> a_forward PIface hm d (r, c, ic) = (ABox k, c', ic') /\ c' = false /\ ic' = false.
+Proof.
+  revert r c ic. induction d as [|d IH]; intros r c ic Hr.
+  - exists 0, c, ic. congruence.
+  - cbn [a_forward].
+    assert (Hb : exists k, a_argconv PIface hm r c ic = ABox k).
+    { unfold a_argconv. destruct r; try discriminate; destruct ic; eauto. }
+    destruct Hb as [k Hk]. rewrite Hk.
+    destruct d as [|d'].
+    + exists k, false, false. intros _. repeat split.
+    + destruct (IH (ABox k) false false eq_refl) as (k' & c' & ic' & H). exists k', c', ic'. intros _. apply H. discriminate.
+Qed.
+
+Lemma nest_iface_box hm n r : raw_or_box r = true -> is_box (a_nest PIface hm n r) = true.
+Proof.
+  revert r; induction n as [|n IH]; intros r Hr; simpl.
+  - destruct r; try discriminate; reflexivity.
+  - specialize (IH r Hr). destruct (a_nest PIface hm n r); try discriminate; reflexivity.
+Qed.
+
+Lemma expr_iface hm sh : let '(r, c, ic) := a_expr PIface hm sh in raw_or_box r = true /\ (c = true -> r = ARaw /\ ic = false).
+Proof.
+  destruct sh; simpl; try (split; [reflexivity|intros; try discriminate; auto]).
+  pose proof (nest_iface_box hm n (ABox 0) eq_refl) as H.
+  destruct (a_nest PIface hm n (ABox 0)); try discriminate. split; [reflexivity|discriminate].
+Qed.
+
+(** A parameter of script interface type: whatever the shape of the argument, however many script
+    functions it is forwarded through, however deep the boxes nest, the host receives the value. *)
+Lemma echo_iface hm sh d : y_echo PIface hm sh d KEcho = ARaw.
+Proof.
+  unfold y_echo. pose proof (expr_iface hm sh) as He.
+  destruct (a_expr PIface hm sh) as [[r c] ic]. destruct He as [Hr Hc].
+  destruct d as [|d].
+  - cbn [a_forward]. destruct r; try discriminate.
+    + destruct ic; [reflexivity|]. destruct c; reflexivity.
+    + destruct ic; [apply a_unbox_box|]. destruct c; [destruct (Hc eq_refl); discriminate|apply a_unbox_box].
+  - destruct (forward_iface hm (S d) r c ic Hr) as (k & c' & ic' & H).
+    destruct (H ltac:(discriminate)) as (-> & -> & ->). apply a_unbox_box.
+Qed.
+
+Lemma forward_id p hm d r :
+  (forall x, a_argconv p hm x false false = x) -> a_forward p hm d (r, false, false) = (r, false, false).
+Proof. intros H. induction d; simpl; [reflexivity|]. rewrite H. assumption. Qed.
+
+Lemma argconv_concrete_id hm x : a_argconv PConcrete hm x false false = x.
+Proof. destruct x; reflexivity. Qed.
+
+Lemma argconv_any_id hm x : a_argconv PAny hm x false false = x.
+Proof. destruct x; reflexivity. Qed.
+
+Lemma nest_concrete hm n : a_nest PConcrete hm n ARaw = ARaw.
+Proof. induction n; simpl; [reflexivity|]. rewrite IHn. reflexivity. Qed.
+
+Lemma nest_any hm n : a_nest PAny hm n ARaw = ARaw.
+Proof. induction n; simpl; [reflexivity|]. rewrite IHn. reflexivity. Qed.
+
+(** A parameter of concrete type handed to an interface{} host parameter: always the value. *)
+Lemma echo_concrete hm sh d : y_echo PConcrete hm sh d KEcho = ARaw.
+Proof.
+  unfold y_echo.
+  assert (H : exists c ic, a_expr PConcrete hm sh = (ARaw, c, ic)).
+  { destruct sh; simpl; eauto. rewrite nest_concrete; eauto. }
+  destruct H as (c & ic & ->).
+  destruct d as [|d].
+  - cbn [a_forward]. destruct ic; [reflexivity|]. destruct c; reflexivity.
+  - cbn [a_forward]. replace (a_argconv PConcrete hm ARaw c ic) with ARaw by (destruct c, ic; reflexivity).
+    rewrite forward_id by apply argconv_concrete_id. reflexivity.
+Qed.
+
+(** A parameter of type interface{}: fine when the value's type has no methods, or when the argument
+    already has static type interface{} and was not stored through a slot. *)
+Definition any_side (hm : bool) (sh : ashape) (d : nat) : bool :=
+  negb hm || match sh with
+             | ACall | AHostCall | AConv | ANested _ => true
+             | ALit => Nat.eqb d 0
+             | ASlot => false
+             end.
+
+Lemma echo_any hm sh d : any_side hm sh d = true -> y_echo PAny hm sh d KEcho = ARaw.
+Proof.
+  unfold any_side, y_echo. intros H.
+  destruct hm; simpl in H.
+  - destruct sh; try discriminate; simpl.
+    + apply Nat.eqb_eq in H; subst. reflexivity.
+    + destruct d; [reflexivity|]. cbn [a_forward]. simpl. rewrite forward_id by apply argconv_any_id. reflexivity.
+    + destruct d; [reflexivity|]. cbn [a_forward]. simpl. rewrite forward_id by apply argconv_any_id. reflexivity.
+    + destruct d; [reflexivity|]. cbn [a_forward]. simpl. rewrite forward_id by apply argconv_any_id. reflexivity.
+    + rewrite nest_any. destruct d; [reflexivity|]. cbn [a_forward]. simpl. rewrite forward_id by apply argconv_any_id. reflexivity.
+  - assert (He : exists c ic, a_expr PAny false sh = (ARaw, c, ic)).
+    { destruct sh; simpl; eauto. rewrite nest_any; eauto. }
+    destruct He as (c & ic & ->).
+    destruct d as [|d].
+    + cbn [a_forward]. destruct ic; [reflexivity|]. destruct c; reflexivity.
+    + cbn [a_forward]. replace (a_argconv PAny false ARaw c ic) with ARaw by (destruct c, ic; reflexivity).
+      rewrite forward_id by apply argconv_any_id. reflexivity.
+Qed.
+
+Lemma echo_witnesses :
+  (* Fwd(Wrap(Wrap(Make(n)))) with a script-interface parameter: three boxes deep at the forwarder *)
+  a_forward PIface true 1 (a_expr PIface true (ANested 1)) = (ABox 3, false, false)
+  /\ y_echo PIface true (ANested 1) 2 KEcho = ARaw
+  (* var s interface{} = Sq{4}; host.Echo(s): the box leaks *)
+  /\ y_echo PAny true ASlot 0 KEcho = ABox 0 /\ g_echo KEcho = ARaw
+  (* var s fmt.Stringer = Sq{4}; host.Echo(s): the host sees the wrapper struct *)
+  /\ y_echo PHostIface true ASlot 0 KEcho = AWrap
+  (* host.EchoStr(Make(n)), Make returning the concrete script type: not wrapped, reflect panics *)
+  /\ y_echo PConcrete true ACall 0 KEchoStr = AFail /\ g_echo KEchoStr = AWrap
+  /\ y_echo PConcrete true ASlot 0 KEchoStr = AWrap.
+Proof. repeat split; reflexivity. Qed.
+
+(* ------------------------------------------------------------------ *)
+(** * go and defer statements *)
+
+Lemma stmt_agree c v1 v2 : aliases_slots c = false -> y_stmt FGo c v1 v2 = g_stmt v1 v2.
+Proof. intros H. unfold y_stmt, y_stmt_late, g_stmt. rewrite H. reflexivity. Qed.
+
+Lemma stmt_witnesses :
+  y_stmt FGo CHostParam (VInt 1) (VInt 2) = VInt 1 /\ y_stmt FGo CScriptClosure (VInt 1) (VInt 2) = VInt 1
+  /\ y_stmt FGo CHostDirect (VInt 1) (VInt 2) = VInt 2 /\ y_stmt FDefer CScriptFunc (VInt 1) (VInt 2) = VInt 2
+  /\ g_stmt (VInt 1) (VInt 2) = VInt 1.
+Proof. repeat split; reflexivity. Qed.
